@@ -623,6 +623,13 @@ theorem sorted_items (fx : List (Option Nat)) (slots : List (Option Nat)) (h : s
     fx.length ≤ slots.length :=
   sortGathered_spec fx slots h
 
+/-- `sorted_items_partial` — the function returns (hence the statement above applies) whenever the fixed locations are
+    pairwise distinct and inside the allocated slot list; in particular whenever every fixed `n < len(items)`.
+    The full "returns for every conflict-free input" is false: see `sorted_items_rejects_n_eq_len`. -/
+theorem sorted_items_partial (fx : List (Option Nat)) (hd : (fx.filterMap id).Nodup)
+    (hin : ∀ n : Nat, some n ∈ fx → n < fx.length) : ∃ slots, sortGathered fx = .ok slots :=
+  sortGathered_ok fx (fun n hn => Nat.lt_of_lt_of_le (hin n hn) (itemsLength_ge fx fx.length)) hd
+
 theorem sorted_items_rejects_n_eq_len : sortGathered [some 1] = .indexError := by decide
 
 /-! ## Non-vacuity
